@@ -1,5 +1,6 @@
 import IrefVerif.Lemmas.PctBytes
 import IrefVerif.Lemmas.PctChars
+import IrefVerif.Lemmas.Utf8Enc
 import IrefVerif.Findings
 
 /-!
@@ -53,6 +54,26 @@ theorem chars_faithful (x : Text) (hw : wellEscaped x = true) (hf : Findings.f13
   cases hd : utf8Decode? (pctDecode x) with
   | none => rw [hd] at hf; simp at hf
   | some w => exact charsAll_spec x w hw hd
+
+/-- … `decode()` (the string of those characters) is the decoded octets, and `len()` their number
+of characters -/
+theorem decode_faithful (x : Text) (w : List Nat) (hw : wellEscaped x = true)
+    (hd : utf8Decode? (pctDecode x) = some w) :
+    charsAll x = some w ∧ utf8Encode w = pctDecode x :=
+  ⟨charsAll_spec x w hw hd, utf8Encode_decode _ w hd⟩
+
+theorem eqLoop_refl_ch (w : List Nat) : eqLoop (w.map Item.ch) (w.map Item.ch) = some true := by
+  induction w with
+  | nil => rfl
+  | cons c w ih => simp [eqLoop, ih]
+
+/-- … and comparing the view with its own decoded text (`PctStr == str`) is `true`, without panic -/
+theorem eq_decoded_text (x : Text) (w : List Nat) (hw : wellEscaped x = true)
+    (hd : utf8Decode? (pctDecode x) = some w) :
+    eqLoop (chars x) (w.map Item.ch) = some true := by
+  unfold chars
+  rw [charsFuel_spec _ x w (Nat.lt_succ_self _) hw hd]
+  exact eqLoop_refl_ch w
 
 /-- F13, witnesses: `%FF`.chars() panics; the overlong `%C0%AF` reads as `/`; an encoded
 surrogate panics — and all three are in the finding's class -/
